@@ -272,7 +272,9 @@ class Stream(APIRegisterMixin):
         else:
             for upstream in self.upstreams:
                 if upstream and upstream.loop:
-                    self.loop = upstream.loop
+                    # also tells the other upstream branches of a multi-input
+                    # node (and refuses to join pipelines on different loops)
+                    self._inform_loop(upstream.loop)
                     break
 
     def _inform_loop(self, loop):
@@ -298,7 +300,7 @@ class Stream(APIRegisterMixin):
         else:
             for upstream in self.upstreams:
                 if upstream and upstream.asynchronous:
-                    self.asynchronous = upstream.asynchronous
+                    self._inform_asynchronous(upstream.asynchronous)
                     break
 
     def _inform_asynchronous(self, asynchronous):
